@@ -75,7 +75,11 @@ CHECKS = {
              "reference form, enumerated attributes in and out of the named range, signed/unsigned/hex attribute classes, user attributes.  Each decoded value must have "
              "the expected kind, number, sign, domain and rendering (names from dwarf.h); uninterpretable cases (float/struct typed data, block for a pointer, ref_sig8, "
              "discr_value, unknown attribute, data16) must give an error, a diagnostic or a raw block, never a silent number."
-             " Also: variables typed by enumerations, values integrated over one to three reference hops, DW_AT_ranges lists with base-address entries, and all ten location-class attributes in block and exprloc form.",
+             " Also: variables typed by enumerations, values integrated over one to three reference hops, DW_AT_ranges lists with base-address entries, and all ten location-class attributes in block and exprloc form."
+             " DWARF 5 units also carry the indexed forms: names in strx/strx1-4 through .debug_str_offsets, addresses in addrx1-4 through .debug_addr (the ULEB128 DW_FORM_addrx, "
+             "which the tool does not know, must be refused or give that address), DW_AT_ranges as rnglistx and as sec_offset into .debug_rnglists with every entry kind "
+             "(offset_pair, base_address(x), start_end, start_length, startx_endx, startx_length), the *_base attributes as hexadecimal offsets; units of any version may carry "
+             "DW_AT_macro_info whose entries (define, undef, start_file, end_file, vendor_ext) must come out one sequence per stored entry.",
         note="The decoding table encodes the statement plus the tool's documented fixed signedness for attributes like upper_bound; compiler objects are covered structurally by C02/C06.",
         design="DESIGN.md 5-C07"),
     "C08": dict(
@@ -180,7 +184,8 @@ CHECKS = {
              "stored order, every operation must report stored offset, opcode and operands, length = #elem, relem = elem reversed, ?OP_x iff present, address = range; "
              "every DIE's `abbrev` must match its code, tag, child flag and (name, form) list with DW_FORM_indirect preserved, `abbrev entry` must list every "
              "abbreviation of every (possibly shared, sparsely numbered) table exactly once."
-             " All ten location-class attributes, empty expressions, abbreviations declared out of code order and `unit abbrev` are covered.",
+             " All ten location-class attributes, empty expressions, abbreviations declared out of code order and `unit abbrev` are covered."
+             " In DWARF 5 units about half of the lists are picked through the offset table (DW_FORM_loclistx + DW_AT_loclists_base), in an order other than the stored one.",
         note="DW_OP_skip/bra and negative implicit_pointer offsets are not generated (libdw validates / reads them unsigned).",
         design="DESIGN.md 5-C17"),
     "C18": dict(
